@@ -3,7 +3,7 @@ From Coq Require Import List ZArith NArith Bool.
 From Common Require Import Base.
 From Arith Require Import Model.
 From Opt Require Import Generic Model Proofs.
-From GoSub Require Import Model Proofs Stmt StmtProofs StmtMain StmtIf.
+From GoSub Require Import Model Proofs Stmt StmtProofs StmtMain StmtIf Loop.
 Import ListNotations.
 Open Scope Z_scope.
 
@@ -102,4 +102,13 @@ Example C01_stmt_if_nonvacuous :
   go_result I8 [(x_, 100); (a_, 3)] p_if = [3; 3; 0] /\ vm_exec Strict I8 [(x_, 100); (a_, 3)] p_if = [3; 3; 0] /\
   go_result I8 [(x_, 50); (a_, 3)] p_if = [99; 0] /\ vm_exec Relaxed I8 [(x_, 50); (a_, 3)] p_if = [99; 0] /\
   go_result I8 [(x_, 50); (a_, 0)] p_if = [1] /\ vm_exec Dynamic I8 [(x_, 50); (a_, 0)] p_if = [1].
+Proof. repeat split; vm_compute; reflexivity. Qed.
+
+(* the three-clause for loop is modelled and tied (bytecode + outputs), not proved: an evaluation of the model *)
+Definition i_ : str := [105%N].
+Definition p_loop : lstmt :=
+  LSeq (LFor i_ (EVar x_) CGt (EVar i_) (EBin BSub (EVar a_) (EConst 1)) false (SOpAssign BAdd y_ (EVar i_))) (LBase (SPrint (EVar y_))).
+Example C01_loop_model_example :
+  go_result_l I8 50 [(x_, 5); (a_, 3); (y_, 1)] p_loop = [13; 0; 0] /\
+  vm_exec_l Strict I8 50 [(x_, 5); (a_, 3); (y_, 1)] p_loop = [13; 0; 0] /\ length (compile_l 0 p_loop) = 39%nat.
 Proof. repeat split; vm_compute; reflexivity. Qed.
